@@ -1,6 +1,7 @@
 package main
 
 import (
+	"fmt"
 	"reflect"
 )
 
@@ -115,8 +116,107 @@ func runRoundTrip(c *Ctx, mode int) {
 			}
 			v := vg.Value(tc.T, d)
 			c.addRT(tc, v, "roundtrip")
+			if mode == 2 && tc.T.Kind() == reflect.Struct && extKind(tc.T) < 0 {
+				c.addShuffled(tc, v)
+			}
 		}
 	}
+}
+
+// splitFields cuts a message into its top-level fields with an independent
+// reader (wire types 0,1,2,5 and plenc's 3 = count + length-prefixed items).
+func splitFields(data []byte) (chunks [][]byte, tags []uint64, ok bool) {
+	for len(data) > 0 {
+		tag, n := pbVarint(data)
+		if n <= 0 {
+			return nil, nil, false
+		}
+		p := n
+		switch tag & 7 {
+		case 0:
+			_, k := pbVarint(data[p:])
+			if k <= 0 {
+				return nil, nil, false
+			}
+			p += k
+		case 1:
+			p += 8
+		case 5:
+			p += 4
+		case 2:
+			l, k := pbVarint(data[p:])
+			if k <= 0 {
+				return nil, nil, false
+			}
+			p += k + int(l)
+		case 3:
+			cnt, k := pbVarint(data[p:])
+			if k <= 0 {
+				return nil, nil, false
+			}
+			p += k
+			for i := uint64(0); i < cnt; i++ {
+				if p > len(data) {
+					return nil, nil, false
+				}
+				l, k := pbVarint(data[p:])
+				if k <= 0 {
+					return nil, nil, false
+				}
+				p += k + int(l)
+			}
+		default:
+			return nil, nil, false
+		}
+		if p > len(data) {
+			return nil, nil, false
+		}
+		chunks = append(chunks, data[:p])
+		tags = append(tags, tag)
+		data = data[p:]
+	}
+	return chunks, tags, true
+}
+
+// addShuffled: the same fields in another order must decode to the same value
+// (repeated fields keep their relative order).
+func (c *Ctx) addShuffled(tc *TypeCase, v reflect.Value) {
+	data, err := tc.P.Marshal(nil, v.Addr().Interface())
+	if err != nil {
+		return
+	}
+	chunks, tags, ok := splitFields(data)
+	if !ok || len(chunks) < 2 {
+		return
+	}
+	// group chunks by tag (a repeated field is one group), then permute the groups
+	var order []uint64
+	groups := map[uint64][][]byte{}
+	for i, t := range tags {
+		if _, seen := groups[t]; !seen {
+			order = append(order, t)
+		}
+		groups[t] = append(groups[t], chunks[i])
+	}
+	for i := len(order) - 1; i > 0; i-- {
+		j := c.rng.Intn(i + 1)
+		order[i], order[j] = order[j], order[i]
+	}
+	var shuffled []byte
+	for _, t := range order {
+		for _, ch := range groups[t] {
+			shuffled = append(shuffled, ch...)
+		}
+	}
+	want := reflect.New(tc.T)
+	got := reflect.New(tc.T)
+	e1 := tc.P.Unmarshal(data, want.Interface())
+	e2 := tc.P.Unmarshal(shuffled, got.Interface())
+	if e1 != nil || e2 != nil || coqVal(want.Elem()) != coqVal(got.Elem()) {
+		c.native = append(c.native, NativeViolation{Case: fmt.Sprintf("shuffled fields type=%s data=%x shuffled=%x", tc.T, data, shuffled),
+			What: fmt.Sprintf("decoding the fields in another order gives a different result (%v %v)", e1, e2), Class: "field-order"})
+	}
+	c.addDec(tc, shuffled, reflect.Zero(tc.T), "shuffled-fields", "shuffled/"+shapeClass(tc.T, 2), true)
 }
 
 // C05: codec laws
